@@ -351,6 +351,31 @@ def permanentRetried (cfg : Nat → Cfg) (o : Obs) : Bool :=
     (adapters (prev o.hist)).all fun a =>
       !((cfg a).permanent && pending a (prev o.hist)) || startsInStep a o.hist == 1
 
+/-- `Close` calls of `a` during the current operation -/
+def stopsInStep (a : Nat) : Hist → Nat
+  | [] => 0
+  | .op _ :: _ => 0
+  | .stop a' :: h => (if a' = a then 1 else 0) + stopsInStep a h
+  | .start _ _ :: h => stopsInStep a h
+
+/-- `a` is a sender whose peer endpoint is the endpoint of another, running receiver (the manager
+refuses to register such a sender) -/
+def peerIsReceiver (cfg : Nat → Cfg) (a : Nat) (h : Hist) : Bool :=
+  (cfg a).sender && (adapters h).any fun r =>
+    r != a && running r h && (cfg r).receiver && (cfg r).eid == (cfg a).peer
+
+/-- **a reported peer loss (or `Restart`) restarts a running adapter**: it is closed exactly once
+and then started exactly once — not started only if it is refused as a sender to a registered
+receiver, or if the budget is 0 and it is not permanent. -/
+def restartRestarts (cfg : Nat → Cfg) (b : Nat) (o : Obs) : Bool :=
+  match o.op with
+  | .restart a | .peerDisappeared a =>
+    !running a (prev o.hist) ||
+      (stopsInStep a o.hist == 1 &&
+        startsInStep a o.hist ==
+          (if peerIsReceiver cfg a (prev o.hist) || (b == 0 && !(cfg a).permanent) then 0 else 1))
+  | _ => true
+
 /-- **no panic, no dead-lock**; calling `Close` a second time is outside the property. -/
 def noPanic (o : Obs) : Bool :=
   match o.outcome with
@@ -368,7 +393,7 @@ def obsOk (cfg : Nat → Cfg) (b : Nat) (o : Obs) : Bool :=
   noPanic o &&
   (o.outcome != .ok ||
     (activeIffStarted cfg o && discipline o.hist && closeStops o && budgetRespected cfg b o.hist &&
-      permanentRetried cfg o && singleInstance cfg o.hist))
+      permanentRetried cfg o && singleInstance cfg o.hist && restartRestarts cfg b o))
 
 end Spec
 
